@@ -156,7 +156,14 @@ func (d *D) nativeBase(j, idx int, ctx *core.Ctx) *core.Scenario {
 	if j == 0 {
 		t = "gridn 0.000000001 \"red\""
 	}
-	sc.Program = "width 2\ncolor \"blue\"\nmove 10 10\n" + t + "\ncircle 3\nprint \"done\"\n"
+	// the frame around the call: the call shares its style run with another shape, or is alone
+	// between two style changes, or is the last thing the program does - in the default style or not
+	pre := []string{"width 2\ncolor \"blue\"\nmove 10 10\n", "width 2\ncolor \"blue\"\nmove 10 10\n", "width 2\ncolor \"blue\"\nmove 10 10\n", "// default style\n\nmove 10 10\n"}[(j/7)%4]
+	post := []string{"\ncircle 3\nprint \"done\"\n", "\ncolor \"red\"\ncircle 3\nprint \"done\"\n", "\n", "\nwidth 1\nprint \"done\"\n"}[(j/3)%4]
+	if j == 0 {
+		pre, post = "width 2\ncolor \"blue\"\nmove 10 10\n", "\ncircle 3\nprint \"done\"\n"
+	}
+	sc.Program = pre + t + post
 	sc.Argv = []string{"--svg-out", "-"}
 	return sc
 }
